@@ -256,9 +256,66 @@ func packBoth(m *dns.Msg, e *event, sum *hx.Summary, c interface{}) []event {
 	}
 	if len(forms) > 1 {
 		sum.Note("compressed_forms_differ_between_packings", e.Key)
+	} else if len(forms) == 1 {
+		packBufferSizes(m, forms[0], len(bu), e, sum, c)
 	}
 	return out
 }
+
+// packBufferSizes: PackBuffer with caller-supplied buffers of every size around the two lengths that matter -- from the
+// compressed length to the uncompressed length + 2 (sampled when that is a long way) -- must give the octets Pack() gave
+// (those are what TLC judges).  "If buf is too small a new buffer is allocated": an error is tolerated only for buffers
+// smaller than the compressed form.
+func packBufferSizes(m *dns.Msg, bc []byte, ulen int, e *event, sum *hx.Summary, c interface{}) {
+	lo, hi := len(bc)-2, ulen+2
+	if lo < 0 {
+		lo = 0
+	}
+	var sizes []int
+	if hi-lo <= 96 {
+		for n := lo; n <= hi; n++ {
+			sizes = append(sizes, n)
+		}
+	} else {
+		for n := lo; n < lo+72; n++ { // a name that shrinks to a pointer near the end needs up to 64 octets of slack to show
+			sizes = append(sizes, n)
+		}
+		for n := lo + 72; n < hi-8; n += 1 + (hi-lo)/24 {
+			sizes = append(sizes, n)
+		}
+		for n := hi - 8; n <= hi; n++ {
+			sizes = append(sizes, n)
+		}
+	}
+	m.Compress = true
+	defer func() { m.Compress = false }()
+	for _, n := range sizes {
+		buf := make([]byte, n)
+		for i := range buf {
+			buf[i] = 0xAA
+		}
+		var got []byte
+		var err error
+		if p := hx.Catch(func() { got, err = m.PackBuffer(buf) }); p != "" {
+			sum.Mis("compress/packbuffer-panic:"+e.G, fmt.Sprintf("PackBuffer with a %d-octet buffer panicked: %s", n, p), c)
+			return
+		}
+		packBufferTried++
+		if err != nil {
+			if n >= len(bc) {
+				sum.Mis("compress/packbuffer-error:"+e.G, fmt.Sprintf("PackBuffer with a %d-octet buffer fails (%v); Pack() gives %d octets compressed, %d uncompressed", n, err, len(bc), ulen), c)
+				return
+			}
+			continue
+		}
+		if !bytes.Equal(got, bc) {
+			sum.Mis("compress/packbuffer-differs-from-pack:"+e.G, fmt.Sprintf("PackBuffer with a %d-octet buffer gives %d octets that are not Pack()'s %d", n, len(got), len(bc)), c)
+			return
+		}
+	}
+}
+
+var packBufferTried int
 
 func typesKey(m *dns.Msg) string {
 	set := map[string]bool{}
@@ -320,6 +377,7 @@ func replay(vectors, out string) {
 	})
 	sum.Note("packimpl_deviations", implDev)
 	sum.Note("poison_packings", poisonStats)
+	sum.Note("packbuffer_calls", packBufferTried)
 	sum.Note("events", w.N)
 	sum.Print()
 }
